@@ -1717,7 +1717,7 @@ def cancel_crash_run(workload: str, j_sym: Any, k_sym: Any, max_k: int = 14) -> 
 def handler_stmt_race_run(prop: str, workload: str, j_sym: Any, k_sym: Any, pick_sym: Any, monitors: tuple[str, ...] = ("C02", "C06"),
                           compare: str = "reference", max_k: int = 90, a_pick_sym: Any = 0,
                           inject: Callable[[World], None] | None = None, post: Callable[[World, dict[str, Any], Any], tuple[str, Any] | None] | None = None,
-                          k2_sym: Any = None, pick2_sym: Any = 0, wide: bool = False) -> bool:
+                          k2_sym: Any = None, pick2_sym: Any = 0, wide: bool = False, delayed: bool = False) -> bool:
     """Two workers, one pre-emption, every pair of handlers the run offers: the handler of the j-th
     delivered message (worker A) is stopped just before its k-th SQL statement and another
     deliverable message (the pick-th of those visible at that instant) is handled completely by
@@ -1726,7 +1726,9 @@ def handler_stmt_race_run(prop: str, workload: str, j_sym: Any, k_sym: Any, pick
     accepted right before step j, so its handler is one of the two that race.  With ``k2_sym`` a
     third worker C handles yet another message completely just before B's k2-th statement (three
     workers, two nested pre-emptions).  ``wide``: A and B range over up to 6 deliverable messages
-    instead of the two oldest and the newest.  Real SQLite file; a position
+    instead of the two oldest and the newest.  ``delayed``: the other worker may also take a
+    message whose delay (<= 30 s, i.e. shorter than the queue lock of the pre-empted handler's own
+    message) has not elapsed yet: the pre-emption lasts as long as the backoff, the clock is advanced.  Real SQLite file; a position
     inside A's open write transaction is not enabled (B would wait for the commit) and slips to the
     next statement outside one.  j, k and the pick are symbolic."""
     with hx.Path("handler_stmt_race:%s:%s" % (prop, workload)) as P:
@@ -1738,9 +1740,9 @@ def handler_stmt_race_run(prop: str, workload: str, j_sym: Any, k_sym: Any, pick
                 w.submit(wf)
                 state: dict[str, Any] = {"n": 0, "armed": False, "done": False, "at": None, "sql": None, "b": None, "a": None}
 
-                def visible() -> list[dict[str, Any]]:
+                def visible(nested: bool = False) -> list[dict[str, Any]]:
                     now = stubs.CLOCK.peek_ms()
-                    vis = [r for r in w.rows() if r["attempts"] < w.queue_max_attempts and r["deliver_ms"] // 1000 <= now // 1000
+                    vis = [r for r in w.rows() if r["attempts"] < w.queue_max_attempts and (r["deliver_ms"] // 1000 <= now // 1000 or (nested and delayed and r["deliver_ms"] <= now + 30_000))
                            and (r["lock_ms"] is None or r["lock_ms"] // 1000 < now // 1000)]
                     vis.sort(key=lambda r: (r["deliver_at"], r["id"]))
                     return vis
@@ -1755,7 +1757,7 @@ def handler_stmt_race_run(prop: str, workload: str, j_sym: Any, k_sym: Any, pick
                     if not st2["armed"] and st2["n"] <= max_k and hx.decide_eq(k2_sym, st2["n"]):
                         st2["armed"] = True
                     if st2["armed"] and not conn.in_transaction and sql not in ("COMMIT", "ROLLBACK"):
-                        vis2 = visible()
+                        vis2 = visible(True)
                         if not vis2:
                             return
                         st2["done"] = True
@@ -1777,7 +1779,7 @@ def handler_stmt_race_run(prop: str, workload: str, j_sym: Any, k_sym: Any, pick
                     if not state["armed"] and state["n"] <= max_k and hx.decide_eq(k_sym, state["n"]):
                         state["armed"] = True
                     if state["armed"] and not conn.in_transaction and sql not in ("COMMIT", "ROLLBACK"):
-                        vis = visible()
+                        vis = visible(True)
                         if not vis:
                             return  # nothing another worker could take right now: try the next position
                         state["done"] = True
@@ -1892,3 +1894,15 @@ def transient_pair_run(n1_sym: Any, n2_sym: Any, with_ctx: Any = True, max_n: in
                 return True
             finally:
                 w.close()
+
+
+
+def post_retry_bound(w: World, snap: dict[str, Any], info: dict[str, Any]) -> tuple[str, Any] | None:
+    """C14 under a race: a task that always fails transiently runs at most the documented number of
+    times and ends TERMINAL."""
+    execs = [e for e in w.ledger.entries if e["ref"] == "a" and e["task"] == "t1"]
+    if len(execs) > DOCUMENTED_ATTEMPT_LIMIT:
+        return ("retried_beyond_limit", {"executions": len(execs), "limit": DOCUMENTED_ATTEMPT_LIMIT})
+    if snap["workflow"] != "TERMINAL":
+        return ("not_terminal_at_limit/%s" % snap["workflow"], {"executions": len(execs), "workflow": snap["workflow"]})
+    return None
